@@ -16,13 +16,14 @@ static c06impmemInstance inst, inst2;
 #define HAVOC_INSTANCE(x) do { c06impmemInstance fresh_; (x) = fresh_; } while (0)
 #endif
 static wasmFunc g_slots[4]; static wasmTable g_hosttab; static void sentinel(void) { }
-static wasmMemory g_hostmem; static U8* g_hostdata; static U32 g_base; static U64 g_big; static int g_resolve_calls;
+static wasmMemory g_hostmem; static U8* g_hostdata; static U32 g_base; static U64 g_big; static int g_resolve_calls; static int g_raw_names_seen; static U32 g_punct;
 static void* resolve(const char* module, const char* name) {
     g_resolve_calls++;
     if (strcmp(module, "env") == 0 && strcmp(name, "mem") == 0) return &g_hostmem;
     if (strcmp(module, "env") == 0 && strcmp(name, "tab") == 0) return &g_hosttab;
     if (strcmp(module, "env") == 0 && strcmp(name, "base") == 0) return &g_base;
     if (strcmp(module, "env") == 0 && strcmp(name, "big") == 0) return &g_big;
+    if (strcmp(module, "e.n-v") == 0 && strcmp(name, "da ta$_") == 0) { g_raw_names_seen++; return &g_punct; }
     return 0;
 }
 #ifdef IMPORTED_MEMORY
@@ -34,10 +35,10 @@ void env__started(void* instp, U32 a, U32 b) {
     c06impmemInstance* ii = (c06impmemInstance*)instp;
     g_started_calls++; g_started_inst = instp; g_started_a = a; g_started_b = b;
     /* the start function runs after ALL of the initial state has been built */
-    g_state_complete_at_start = (MEMP(*ii) != 0 && MEMP(*ii)->data[8] == 'h' && MEMP(*ii)->data[65535] == 'd' && ii->g2 == 5u && ii->g6 == g_base);
+    g_state_complete_at_start = (MEMP(*ii) != 0 && MEMP(*ii)->data[8] == 'h' && MEMP(*ii)->data[65535] == 'd' && ii->g3 == 5u && ii->g7 == g_base);
 }
 static void host_setup(U32 base, U64 big) {
-    g_base = base; g_big = big; g_started_calls = 0; g_resolve_calls = 0; g_state_complete_at_start = 0; g_libm_calls = 0; g_spec_trap = SPEC_NOTRAP;
+    g_base = base; g_big = big; g_started_calls = 0; g_resolve_calls = 0; g_raw_names_seen = 0; g_state_complete_at_start = 0; g_libm_calls = 0; g_spec_trap = SPEC_NOTRAP;
 #ifdef IMPORTED_MEMORY
     g_hostdata = (U8*)calloc(65536, 1); ASSUME(g_hostdata != 0);
     { int i; for (i = 0; i < 4; i++) g_slots[i] = (wasmFunc)sentinel; g_hosttab.data = g_slots; g_hosttab.size = 4; g_hosttab.maxSize = 4; }
@@ -80,13 +81,38 @@ void h_table(void) { ND(U32, base); ND(U64, big); ND(U32, k); ASSUME(base >= 20 
     OBL((k == 1 || k == 2) || inst.t0.data[k] == 0, "instantiate: every other entry of a defined table is null");
 #endif
     CANARY("table"); }
+/* <module>NewChild: the instance a spawned thread runs on (wasi thread-spawn calls instance->common.newChild) */
+void h_newchild(void) { ND(U32, base); ND(U64, big); c06impmemInstance* child; ASSUME(base >= 20 && base <= 23); host_setup(base, big);
+    HAVOC_INSTANCE(inst); c06impmemInstantiate(&inst, resolve);
+    (void)c06impmem_inc(&inst);                                  /* the parent's mutable global is now 6 */
+    child = c06impmemNewChild(&inst);
+    ASSUME(child != 0);
+    OBL(child != &inst && child->common.funcExports == inst.common.funcExports && child->common.resolveImports == inst.common.resolveImports,
+        "new child: a separate instance with the parent's export table and resolver");
+    OBL(child->common.newChild == inst.common.newChild && inst.common.newChild != 0, "new child: a child can itself create children (a thread spawned by a spawned thread)");
+    OBL(child->g3 == 5u && inst.g3 == 6u, "new child: defined globals are initialised afresh from their initialisers, the parent's are untouched");
+    OBL(child->env__base == &g_base && child->g7 == base, "new child: imports are bound through the parent's resolver");
+#ifdef WASM_THREADS_PTHREADS
+    OBL(MEMP(*child) == MEMP(inst), "new child: a SHARED memory is shared with the parent (same descriptor)");
+#endif
+    CANARY("newchild"); }
+/* <module>FreeInstance releases what the instance owns - never an imported memory, which belongs to (and may still be used by) its owner */
+void h_free(void) { ND(U32, base); ND(U64, big); ASSUME(base >= 20 && base <= 23); host_setup(base, big);
+    HAVOC_INSTANCE(inst); c06impmemInstantiate(&inst, resolve);
+    c06impmemFreeInstance(&inst);
+#ifdef IMPORTED_MEMORY
+    OBL(g_hostmem.data == g_hostdata && g_hostmem.pages == 1 && g_hostmem.size == 65536u, "free instance: an imported memory is left to its owner (descriptor untouched)");
+    OBL(g_hostdata[8] == 'h', "free instance: the imported memory's contents are still there (not released: CBMC's deallocated-object check)");
+#endif
+    CANARY("free"); }
 void h_globals(void) { ND(U32, base); ND(U64, big); ASSUME(base >= 20 && base <= 23); host_setup(base, big);
     HAVOC_INSTANCE(inst); c06impmemInstantiate(&inst, resolve);
-    OBL(inst.g2 == 5u && inst.g3 == 0x8000000000000001ull, "instantiate: integer globals hold their constant initialisers");
-    OBL(vh_f32bits(inst.g4) == 0x7FA00001u && vh_f64bits(inst.g5) == 0xFFF0000000000123ull, "instantiate: float globals hold the exact bit pattern (NaN payloads) of their initialisers");
-    OBL(inst.g8 == 0 && inst.g9 == 0, "instantiate: globals with a zero initialiser are zero (whatever the instance storage held before)");
-    OBL(inst.g6 == base && inst.g7 == big, "instantiate: globals initialised by global.get of an imported global take the value the resolver's object holds");
+    OBL(inst.g3 == 5u && inst.g4 == 0x8000000000000001ull, "instantiate: integer globals hold their constant initialisers");
+    OBL(vh_f32bits(inst.g5) == 0x7FA00001u && vh_f64bits(inst.g6) == 0xFFF0000000000123ull, "instantiate: float globals hold the exact bit pattern (NaN payloads) of their initialisers");
+    OBL(inst.g9 == 0 && inst.g10 == 0, "instantiate: globals with a zero initialiser are zero (whatever the instance storage held before)");
+    OBL(inst.g7 == base && inst.g8 == big, "instantiate: globals initialised by global.get of an imported global take the value the resolver's object holds");
     OBL(inst.env__base == &g_base && inst.env__big == &g_big, "instantiate: imported globals are bound to what the resolver returned");
+    OBL(g_raw_names_seen == 1, "instantiate: the resolver is asked for the import's module and field names exactly as they are in the binary (punctuation, blanks and underscores included), once");
     OBL(c06impmem_g64(&inst) == (0x8000000000000001ull ^ big) && vh_f32bits(c06impmem_gf32(&inst)) == 0x7FA00001u && vh_f64bits(c06impmem_gf64(&inst)) == 0xFFF0000000000123ull,
         "instantiate: exported functions are reachable under <module>_<name> and observe the initial state");
     CANARY("globals"); }
